@@ -520,6 +520,10 @@ def to_big(T):
     out = _map_numbers(T, limbs)
     out['Sb'] = limbs(T['S'])
     out['nSb'] = limbs(T['S'] * T['n'])
+    out['nb'] = limbs(T['n'])
+    out['n'] = min(T['n'], 2 ** 30)
+    for l in out.get('lines', []):
+        l['m'] = min(l['m'], 2 ** 30)     # huge multipliers: BigProps uses nb / nSb; m only matters for qpq weights (small profiles)
     out['gepsb'] = limbs(T['geps'])
     out['omegab'] = limbs(T.get('omega', 0) or 0)
     out['S'] = 0
